@@ -142,6 +142,8 @@ class _BlockRanges:
 
   def find_outermost(self, line):
     """Find the outermost interval containing line."""
+    if not self._starts:
+      return None, None
     i = bisect.bisect_left(self._starts, line)
     num_intervals = len(self._starts)
     if i or line == self._starts[0]:
